@@ -152,10 +152,17 @@ fn case_json(c: &Case5) -> serde_json::Value {
 
 
 fn tamper_cases(seed: u64) -> Vec<Case5> {
-    [1usize, 2]
+    let mut v: Vec<Case5> = [1usize, 2]
         .into_iter()
         .map(|shards| Case5 { shards, malicious: true, rows: vec![11, 22, 33], assign: (0..3).map(|i| i % shards).collect(), seed: seed + 99 })
-        .collect()
+        .collect();
+    // few rows on many shards: some shard receives rows of an intermediate table and ends up without
+    // output rows, another holds nothing at all - the verification has to run there too
+    for k in 0..3u64 {
+        v.push(Case5 { shards: 3, malicious: true, rows: vec![44, 55], assign: vec![(k % 3) as usize, ((k + 1) % 3) as usize], seed: seed + 200 + k });
+    }
+    v.push(Case5 { shards: 2, malicious: true, rows: vec![66], assign: vec![1], seed: seed + 210 });
+    v
 }
 
 /// census (twice; must agree) and the deterministic fault list derived from it
@@ -306,6 +313,53 @@ fn run() {
         }
     }
     r.add("honest_runs_reordered", reordered);
+    // ---- order of disclosure (malicious): a helper parts with its share of the MAC keys only after every
+    // table addressed to it has been sent. The tags are linear in the keys, so a helper that learns
+    // the keys while it can still choose a table could alter a row and its tag consistently.
+    {
+        use crate::helpers::in_memory_config::InspectContext;
+        let mut order_cases = Vec::new();
+        for shards in [1usize, 2, 3] {
+            for n in [2usize, 3, 6] {
+                order_cases.push(Case5 { shards, malicious: true, rows: (0..n as u64).map(|i| 500 + 37 * i).collect(), assign: (0..n).map(|i| i % shards).collect(), seed: seed + 7 + n as u64 });
+            }
+        }
+        for c in &order_cases {
+            let log: std::sync::Arc<std::sync::Mutex<Vec<(Option<u32>, usize, usize, String)>>> = Default::default();
+            let l2 = std::sync::Arc::clone(&log);
+            let icp: DynStreamInterceptor = std::sync::Arc::new(move |ctx: &InspectContext, _data: &mut Vec<u8>| {
+                if let InspectContext::MpcMessage { shard, source, dest, gate } = ctx {
+                    let idx = |h: &crate::helpers::HelperIdentity| crate::helpers::HelperIdentity::make_three().iter().position(|x| x == h).unwrap();
+                    l2.lock().unwrap().push((shard.map(u32::from), idx(source), idx(dest), gate.as_ref().to_string()));
+                }
+            });
+            let out = rt.block_on(dispatch(c, icp, Duration::from_secs(30), Duration::from_secs(5)));
+            r.inc("evaluations");
+            r.inc("disclosure_order_runs");
+            if check_honest(c, &out).is_err() {
+                continue; // reported by the honest grid above
+            }
+            let log = log.lock().unwrap();
+            for shard in log.iter().map(|x| x.0).collect::<std::collections::BTreeSet<_>>() {
+                for y in 0..3usize {
+                    let first_key = log.iter().position(|m| m.0 == shard && m.1 == y && m.3.contains("reveal_m_a_c_key"));
+                    let last_table = log.iter().rposition(|m| m.0 == shard && m.2 == y && (m.3.ends_with("transfer_x_y") || m.3.ends_with("transfer_c")));
+                    r.inc("disclosure_order_points");
+                    if let (Some(k), Some(t)) = (first_key, last_table) {
+                        if k < t {
+                            r.violation(
+                                "shuffle:keys-disclosed-before-tables",
+                                &format!("{} rows on {} shards: helper {y} (shard {shard:?}) sent its share of the MAC keys (message {k} of the run, {}) before the last table addressed to it was sent (message {t}, {} from helper {})", c.rows.len(), c.shards, log[k].3, log[t].3, log[t].1),
+                                json!({"part":"shuffle","case":case_json(c),"order":"keys-before-tables"}),
+                            );
+                        }
+                    } else if first_key.is_none() {
+                        r.note(format!("S{} helper {y}: no key-disclosure message seen (gate names changed?)", c.shards));
+                    }
+                }
+            }
+        }
+    }
     r.sample(json!({"honest_case":case_json(&Case5{shards:3,malicious:true,rows:vec![1000,1037,1074],assign:vec![0,0,2],seed})}));
 
     // ---- tamper enumeration (malicious) ----------------------------------------------------------
